@@ -191,7 +191,7 @@ class World:
 
     def op_getter(self, op):
         c = self.objs[op['obj']]
-        out = getattr(c, op['which'])(*op.get('args', []))
+        out = self._with_fault(op.get('fault'), lambda: getattr(c, op['which'])(*op.get('args', [])))
         return {'status': 'ok', 'repr': _freeze(out)}
 
     def op_getitem(self, op):
@@ -210,7 +210,7 @@ class World:
         return {'status': 'ok'}
 
     def op_deepcopy(self, op):
-        self.objs[op['as']] = copy.deepcopy(self.objs[op['obj']])
+        self.objs[op['as']] = self._with_fault(op.get('fault'), lambda: copy.deepcopy(self.objs[op['obj']]))
         return {'status': 'ok'}
 
     def op_derive_operator(self, op):
@@ -232,7 +232,7 @@ class World:
             kw['edges'] = [(s, t, None, dict(a)) for s, t, a in op['edges']]
         if op.get('name'):
             kw['name'] = op['name']
-        new = c.update_template(in_place=False, **kw)
+        new = self._with_fault(op.get('fault'), lambda: c.update_template(in_place=False, **kw))
         if op.get('as'):
             self.objs[op['as']] = new
         return {'status': 'ok'}
